@@ -129,7 +129,7 @@ theorem oof_false_of_le {a b : State} (h : FlagsLe a b) (hb : b.oof = false) : a
 
 /-- **walk = subtree sum** -/
 theorem walk_sum {rk : Nat → Nat} (cfg : Cfg) (f : Nat) :
-    ∀ (s : State) (t : Nat) (op : WOp), Inv rk s →
+    ∀ (s : State) (t : Nat) (op : WOp), InvT rk s →
       (∀ z zb, InSub s t z → s.get z = some zb → zb.pending = false) →
       (∃ tb, s.get t = some tb) →
       (walk cfg f s t op).1.oof = false → (walk cfg f s t op).2 = subSum cfg s t := by
